@@ -61,8 +61,9 @@ for _n in ("append", "extend", "insert", "remove", "pop", "clear", "sort", "reve
 
 
 def track(x: Any, log: Log, path: str = "") -> Any:
-    """Deep copy of a definition's containers into tracked ones (tuples, frozensets and
-    atoms are kept: they cannot be changed)."""
+    """Deep copy of a definition's containers into tracked ones.  Tuples are rebuilt around
+    tracked members (a list placed inside a tuple is tracked too); frozensets and atoms are kept:
+    they cannot be changed (their elements are hashable)."""
     if isinstance(x, dict):
         d = TDict()
         for k, v in x.items():
@@ -77,6 +78,8 @@ def track(x: Any, log: Log, path: str = "") -> Any:
         lst = TList(track(e, log, f"{path}[{i}]") for i, e in enumerate(x))
         lst._log, lst._path = log, path
         return lst
+    if type(x) is tuple:
+        return tuple(track(e, log, f"{path}[{i}]") for i, e in enumerate(x))
     return x
 
 
